@@ -3,8 +3,8 @@ package main
 // multigen — multi-source operators translated into Lean machines over events tagged by source (property C05; also
 // C03 / C09 / C14 for these operators, which project the same runs).
 //
-// On every run the subscribe functions of TakeUntil, SkipUntil (operator_filter.go), SampleWhen and ThrottleWhen
-// (operator_transformations.go) are translated into `Ro.Multi.MMachine` values built from the statement language of
+// On every run the subscribe functions of TakeUntil, SkipUntil (operator_filter.go), SampleWhen, ThrottleWhen
+// (operator_transformations.go) and MergeAll (operator_combining.go) are translated into `Ro.Multi.MMachine` values built from the statement language of
 // lean/RoModel/Multi/GenStm.lean (output: lean/RoGen/MultiGen.lean, namespace RoGen.Multi); lean/RoProps/C05gen.lean
 // proves each of them to refine the hand-written machine of RoModel/Multi/OpsA.lean that the C05 theorems are about
 // (`MMachine.Sim`, RoProofs/MultiSim.lean: indistinguishable runs for every source configuration, subscription context,
@@ -18,15 +18,22 @@ package main
 //                   Decl*  S := NewSubscription(nil)
 //                   ( S.AddUnsubscribable(X.SubscribeWithContext(subscriberCtx, Obs)) )+
 //                   return S.Unsubscribe }) } }
-//   Decl  ::= x := uint32(k) | x := int32(k) | var x int32 | var x uint32 | var x bool | var x lo.Tuple2[context.Context, T]
-//           | m := xsync.NewMutexWith…() | atomic.StoreXxx(&x, k)            -- the operator's locals; a mutex is not a local
+//   Decl  ::= x := uint32(k) | x := int32(k) | var x int32 | var x uint32 | var x bool | var x lo.Tuple2[context.Context, T] | var x context.Context
+//           | m := xsync.NewMutexWith…() | var m sync.Mutex | atomic.StoreXxx(&x, k)   -- the operator's locals; a mutex is not a local
+//           | h := func() { Stmt* }
 //   Obs   ::= NewObserverWithContext(Cb, Cb, Cb) | OnNextWithContext(Cb)      -- OnNext…: empty error / completion callbacks
 //   Cb    ::= destination.NextWithContext | destination.ErrorWithContext | destination.CompleteWithContext | func(ctx, [v]) { Stmt* }
 //   Stmt  ::= m.Lock() | m.Unlock() | defer m.Unlock()                        -- dropped (logical semantics, GenStm.lean header)
 //           | x = Expr | atomic.StoreXxx(&x, Expr) | y := Expr                -- y: callback-local, substituted
 //           | destination.K(args) | defer destination.K(args)                 -- a deferred call must be followed by lock operations only
 //           | if Cond { Stmt* } [else { Stmt* }] | if Cond { Stmt*; return } Stmt*  | return
-//   Cond  ::= atomic.LoadXxx(&x) == k | x | !x | atomic.CompareAndSwapXxx(&x, a, b)   -- the last one: test, and set in the true branch
+//           | atomic.AddXxx(&x, k) | y := atomic.AddXxx(&x, k)                -- y: the new value of x
+//           | h()                                                             -- h := func() { Stmt* } declared among the locals: inlined
+//           | S.AddUnsubscribable(v.SubscribeWithContext(Expr, NewObserverWithContext(Cb, Cb, Cb)))
+//                                   -- higher-order operators: v is the callback's value parameter of type Observable[..]; it stands for the
+//                                      inner source `idx v` (a parameter of the generated machine); the three callbacks are the reaction of
+//                                      every inner source and may not refer to the enclosing callback's parameters or locals
+//   Cond  ::= atomic.LoadXxx(&x) == k | x | !x | Expr == Expr | atomic.CompareAndSwapXxx(&x, a, b)   -- the last one: test, and set in the true branch
 //   Expr  ::= k | true | false | identifier | lo.T2(Expr, Expr) | Expr.A | Expr.B | uint32(Expr) | int32(Expr)
 //
 // Source numbering: `source` is 0, the observable parameters of the outer function follow in order. The callbacks of the last
@@ -53,6 +60,7 @@ var mgOps = []struct{ file, name string }{
 	{"operator_filter.go", "SkipUntil"},
 	{"operator_transformations.go", "SampleWhen"},
 	{"operator_transformations.go", "ThrottleWhen"},
+	{"operator_combining.go", "MergeAll"},
 }
 
 type mgVar struct {
@@ -73,6 +81,16 @@ type mgEnv struct {
 	// per callback
 	deferSeen bool
 	assigned  map[string]bool // locals assigned so far in this callback
+	obsParams map[string]bool // callback parameters of type Observable[..]: values that stand for an inner source
+	helpers   map[string]*ast.FuncLit // local closures `h := func() {…}`, inlined at their calls
+	inlining  map[string]bool
+	dyn       map[string]mgReact // the callbacks handed to the inner sources (higher-order operators)
+	needIdx   bool
+}
+
+type mgReact struct {
+	names []string
+	body  string
 }
 
 func (e *mgEnv) stName() string   { return e.op + "St" }
@@ -116,6 +134,11 @@ func (e *mgEnv) expr(x ast.Expr) (string, []string) {
 			return mgIdent(v.Name), nil
 		}
 		mgPanic("identifier %s at line %d is neither a parameter nor a local of the operator", v.Name, line(v.Pos()))
+	case *ast.UnaryExpr:
+		if v.Op == token.SUB {
+			in, r := e.expr(v.X)
+			return "(-" + in + ")", r
+		}
 	case *ast.SelectorExpr:
 		if v.Sel.Name == "A" || v.Sel.Name == "B" {
 			in, r := e.expr(v.X)
@@ -304,6 +327,65 @@ func (e *mgEnv) assign(name string, rhs ast.Expr, pos token.Pos) string {
 	return fmt.Sprintf("(.set (fun s => { s with %s := %s }))", mgField(name), v)
 }
 
+// atomic.AddXxx(&x, k)
+func (e *mgEnv) addTo(name string, delta ast.Expr, pos token.Pos) string {
+	if !e.isVar[name] {
+		mgPanic("atomic add to %s at line %d: not a local of the operator", name, line(pos))
+	}
+	for l, reads := range e.lreads {
+		for _, r := range reads {
+			if r == name {
+				mgPanic("local %s is changed at line %d after %s was copied from it", name, line(pos), l)
+			}
+		}
+	}
+	d, _ := e.expr(delta)
+	e.assigned[name] = true
+	return fmt.Sprintf("(.set (fun s => { s with %s := s.%s + %s }))", mgField(name), mgField(name), d)
+}
+
+// S.AddUnsubscribable(v.SubscribeWithContext(c, Obs)) inside a callback, where v is a value of the outer observable that
+// stands for an inner source: -> (.sub (idx v) c, .add L (idx v)); the observer's callbacks become the reaction of every
+// inner source (they may not refer to the enclosing callback's parameters or locals)
+func (e *mgEnv) nestedSubscribe(c *ast.CallExpr) (string, string, bool) {
+	se, ok := c.Fun.(*ast.SelectorExpr)
+	if !ok || !isIdent(se.X, e.comp) || se.Sel.Name != "AddUnsubscribable" || len(c.Args) != 1 {
+		return "", "", false
+	}
+	sc, ok := c.Args[0].(*ast.CallExpr)
+	if !ok {
+		return "", "", false
+	}
+	sse, ok := sc.Fun.(*ast.SelectorExpr)
+	if !ok || sse.Sel.Name != "SubscribeWithContext" || len(sc.Args) != 2 {
+		return "", "", false
+	}
+	sid, ok := sse.X.(*ast.Ident)
+	if !ok || !e.obsParams[sid.Name] {
+		mgPanic("nested subscription at line %d: the subscribed observable is not a value of the outer observable", line(c.Pos()))
+	}
+	if e.dyn != nil {
+		mgPanic("a second nested subscription at line %d", line(c.Pos()))
+	}
+	cx, _ := e.expr(sc.Args[0])
+	oc, fn := mgObsCall(sc.Args[1])
+	if oc == nil || fn != "NewObserverWithContext" || len(oc.Args) != 3 {
+		mgPanic("observer of the inner sources at line %d outside the fragment", line(sc.Args[1].Pos()))
+	}
+	// fresh scope for the inner callbacks
+	saveP, saveL, saveR, saveD, saveA, saveO := e.params, e.locals, e.lreads, e.deferSeen, e.assigned, e.obsParams
+	r := map[string]mgReact{}
+	for j, kind := range []string{"next", "error", "complete"} {
+		names, b := e.callback(oc.Args[j], kind)
+		r[kind] = mgReact{names, b}
+	}
+	e.params, e.locals, e.lreads, e.deferSeen, e.assigned, e.obsParams = saveP, saveL, saveR, saveD, saveA, saveO
+	e.dyn = r
+	e.needIdx = true
+	k := "(idx " + mgIdent(sid.Name) + ")"
+	return fmt.Sprintf("(.sub (fun s => %s) (fun s => %s))", k, cx), fmt.Sprintf("(.add %s (fun s => %s))", e.lensName(), k), true
+}
+
 // a block of a callback; `endsInReturn` tells the caller that control does not fall through
 func (e *mgEnv) block(l []ast.Stmt) (string, bool) {
 	var parts, deferred []string
@@ -337,6 +419,25 @@ func (e *mgEnv) block(l []ast.Stmt) (string, bool) {
 				parts = append(parts, e.assign(arg, c.Args[1], v.Pos()))
 				continue
 			}
+			if _, arg, ok := mgAtomic(c, "Add"); ok && len(c.Args) == 2 {
+				parts = append(parts, e.addTo(arg, c.Args[1], v.Pos()))
+				continue
+			}
+			if id, ok := c.Fun.(*ast.Ident); ok && e.helpers[id.Name] != nil && len(c.Args) == 0 {
+				if e.inlining[id.Name] {
+					mgPanic("recursive local closure %s at line %d", id.Name, line(v.Pos()))
+				}
+				e.inlining[id.Name] = true
+				body, ret := e.block(e.helpers[id.Name].Body.List)
+				delete(e.inlining, id.Name)
+				_ = ret // a `return` inside the helper only ends the helper
+				parts = append(parts, body)
+				continue
+			}
+			if sub, add, ok := e.nestedSubscribe(c); ok {
+				parts = append(parts, sub, add)
+				continue
+			}
 			mgPanic("call at line %d outside the fragment", line(v.Pos()))
 		case *ast.DeferStmt:
 			s, ok := e.emit(v.Call)
@@ -364,6 +465,15 @@ func (e *mgEnv) block(l []ast.Stmt) (string, bool) {
 			case token.ASSIGN:
 				parts = append(parts, e.assign(id.Name, v.Rhs[0], v.Pos()))
 			case token.DEFINE:
+				if c, ok := v.Rhs[0].(*ast.CallExpr); ok {
+					if _, arg, ok := mgAtomic(c, "Add"); ok && len(c.Args) == 2 {
+						// y := atomic.AddXxx(&x, k): the new value of x
+						parts = append(parts, e.addTo(arg, c.Args[1], v.Pos()))
+						e.locals[id.Name] = "s." + mgField(arg)
+						e.lreads[id.Name] = []string{arg}
+						continue
+					}
+				}
 				s, reads := e.expr(v.Rhs[0])
 				e.locals[id.Name] = s
 				e.lreads[id.Name] = reads
@@ -434,9 +544,17 @@ func (e *mgEnv) callback(x ast.Expr, kind string) ([]string, string) {
 		mgPanic("callback at line %d is neither a function literal nor a method of destination", line(x.Pos()))
 	}
 	var names []string
+	obsP := map[string]bool{}
 	for _, f := range fl.Type.Params.List {
+		isObs := false
+		if ix, ok := f.Type.(*ast.IndexExpr); ok && isIdent(ix.X, "Observable") {
+			isObs = true
+		}
 		for _, n := range f.Names {
 			names = append(names, mgIdent(n.Name))
+			if isObs {
+				obsP[n.Name] = true
+			}
 		}
 	}
 	if len(names) != len(canon) {
@@ -449,6 +567,7 @@ func (e *mgEnv) callback(x ast.Expr, kind string) ([]string, string) {
 	e.locals, e.lreads = map[string]string{}, map[string][]string{}
 	e.deferSeen = false
 	e.assigned = map[string]bool{}
+	e.obsParams = obsP
 	body, _ := e.block(fl.Body.List)
 	return names, body
 }
@@ -472,7 +591,8 @@ func mgObsCall(x ast.Expr) (*ast.CallExpr, string) {
 }
 
 func mgTranslate(fd *ast.FuncDecl) string {
-	e := &mgEnv{op: fd.Name.Name, isVar: map[string]bool{}, mutexes: map[string]bool{}, sources: map[string]int{"source": 0}}
+	e := &mgEnv{op: fd.Name.Name, isVar: map[string]bool{}, mutexes: map[string]bool{}, sources: map[string]int{},
+		helpers: map[string]*ast.FuncLit{}, inlining: map[string]bool{}}
 	// outer parameters: observables only
 	n := 1
 	for _, f := range fd.Type.Params.List {
@@ -495,9 +615,13 @@ func mgTranslate(fd *ast.FuncDecl) string {
 		mgPanic("outer function body is not a single return")
 	}
 	inner, ok := ret.Results[0].(*ast.FuncLit)
-	if !ok || len(inner.Type.Params.List) != 1 || len(inner.Type.Params.List[0].Names) != 1 || inner.Type.Params.List[0].Names[0].Name != "source" || len(inner.Body.List) != 1 {
+	if !ok || len(inner.Type.Params.List) != 1 || len(inner.Type.Params.List[0].Names) != 1 || len(inner.Body.List) != 1 {
 		mgPanic("the returned operator is not `func(source Observable[T]) Observable[T] { return … }`")
 	}
+	if _, dup := e.sources[inner.Type.Params.List[0].Names[0].Name]; dup {
+		mgPanic("the piped source shadows a parameter")
+	}
+	e.sources[inner.Type.Params.List[0].Names[0].Name] = 0
 	ret2, ok := inner.Body.List[0].(*ast.ReturnStmt)
 	if !ok || len(ret2.Results) != 1 {
 		mgPanic("the operator does not return a constructor call")
@@ -539,6 +663,10 @@ func mgTranslate(fd *ast.FuncDecl) string {
 			case "bool":
 				return "Bool", "false", true
 			}
+		case *ast.SelectorExpr:
+			if isIdent(x.X, "context") && x.Sel.Name == "Context" {
+				return "Ctx", "Ctx.nil", true
+			}
 		case *ast.IndexListExpr:
 			if se, ok := x.X.(*ast.SelectorExpr); ok && isIdent(se.X, "lo") && se.Sel.Name == "Tuple2" && len(x.Indices) == 2 {
 				if s0, ok := x.Indices[0].(*ast.SelectorExpr); ok && isIdent(s0.X, "context") && s0.Sel.Name == "Context" && isIdent(x.Indices[1], "T") {
@@ -562,6 +690,12 @@ decls:
 				if len(vs.Values) != 0 || vs.Type == nil {
 					mgPanic("declaration at line %d has an initialiser", line(v.Pos()))
 				}
+				if se, ok := vs.Type.(*ast.SelectorExpr); ok && isIdent(se.X, "sync") && (se.Sel.Name == "Mutex" || se.Sel.Name == "RWMutex") {
+					for _, nm := range vs.Names {
+						e.mutexes[nm.Name] = true
+					}
+					continue
+				}
 				ty, zero, ok := tyOf(vs.Type)
 				if !ok {
 					mgPanic("local of a type outside the fragment at line %d", line(v.Pos()))
@@ -579,10 +713,16 @@ decls:
 				if len(c.Args) != 1 || !isIdent(c.Args[0], "nil") {
 					mgPanic("NewSubscription with a teardown at line %d", line(v.Pos()))
 				}
+				if e.comp != "" {
+					mgPanic("a second composite subscription at line %d", line(v.Pos()))
+				}
 				e.comp = name
 				mgFieldOf[name] = "comp"
-				i++
-				break decls
+				continue
+			}
+			if hl, ok := v.Rhs[0].(*ast.FuncLit); ok && (hl.Type.Params == nil || len(hl.Type.Params.List) == 0) && (hl.Type.Results == nil || len(hl.Type.Results.List) == 0) {
+				e.helpers[name] = hl
+				continue
 			}
 			if c, ok := v.Rhs[0].(*ast.CallExpr); ok {
 				if se, ok := c.Fun.(*ast.SelectorExpr); ok && isIdent(se.X, "xsync") && strings.HasPrefix(se.Sel.Name, "NewMutex") {
@@ -602,6 +742,9 @@ decls:
 		case *ast.ExprStmt:
 			c, ok := v.X.(*ast.CallExpr)
 			if ok {
+				if se, ok := c.Fun.(*ast.SelectorExpr); ok && e.comp != "" && isIdent(se.X, e.comp) {
+					break decls // the first subscription
+				}
 				if _, arg, ok := mgAtomic(c, "Store"); ok && len(c.Args) == 2 && e.isVar[arg] {
 					if lit, ok := mgLit(c.Args[1]); ok {
 						for k := range e.vars {
@@ -625,10 +768,7 @@ decls:
 		mgPanic("composite subscription shadows a local")
 	}
 	// subscriptions
-	type react struct {
-		names []string
-		body  string
-	}
+	type react = mgReact
 	reacts := map[int]map[string]react{}
 	var boot []string
 	for ; i < len(body)-1; i++ {
@@ -686,7 +826,7 @@ decls:
 			mgPanic("observer of source %d at line %d outside the fragment", k, line(sc.Args[1].Pos()))
 		}
 		reacts[k] = r
-		boot = append(boot, fmt.Sprintf("(.sub %d subscriberCtx)", k), fmt.Sprintf("(.add %s %d)", e.lensName(), k))
+		boot = append(boot, fmt.Sprintf("(.sub (fun s => %d) (fun s => subscriberCtx))", k), fmt.Sprintf("(.add %s (fun s => %d))", e.lensName(), k))
 	}
 	if len(reacts) != nsrc {
 		mgPanic("%d of %d sources are subscribed", len(reacts), nsrc)
@@ -727,7 +867,11 @@ decls:
 		lensImp = " {α : Type}"
 	}
 	sb.WriteString(fmt.Sprintf("def %s%s : CompLens (%s%s) := ⟨fun s => s.%s, fun s c => { s with %s := c }⟩\n\n", e.lensName(), lensImp, e.stName(), targ, mgField(e.comp), mgField(e.comp)))
-	sb.WriteString(fmt.Sprintf("def %sG {α : Type}%s : MMachine (%s%s) α α := build\n  { ", lowerFirstMG(e.op), inh, e.stName(), targ))
+	idxP := ""
+	if e.needIdx {
+		idxP = " (idx : α → Nat)" // which inner source a value of the outer observable stands for
+	}
+	sb.WriteString(fmt.Sprintf("def %sG {α : Type}%s%s : MMachine (%s%s) α α := build\n  { ", lowerFirstMG(e.op), inh, idxP, e.stName(), targ))
 	for _, v := range e.vars {
 		sb.WriteString(fmt.Sprintf("%s := %s, ", mgField(v.name), v.zero))
 	}
@@ -740,13 +884,19 @@ decls:
 	sort.Ints(ks)
 	for _, k := range ks {
 		pat := fmt.Sprint(k)
-		if k == nsrc-1 {
+		if k == nsrc-1 && e.dyn == nil {
 			pat = "_"
 		}
 		r := reacts[k]
 		sb.WriteString(fmt.Sprintf("    | %s, .next %s => %s\n", pat, strings.Join(r["next"].names, " "), r["next"].body))
 		sb.WriteString(fmt.Sprintf("    | %s, .error %s => %s\n", pat, strings.Join(r["error"].names, " "), r["error"].body))
 		sb.WriteString(fmt.Sprintf("    | %s, .complete %s => %s\n", pat, strings.Join(r["complete"].names, " "), r["complete"].body))
+	}
+	if e.dyn != nil {
+		r := e.dyn
+		sb.WriteString(fmt.Sprintf("    | _, .next %s => %s\n", strings.Join(r["next"].names, " "), r["next"].body))
+		sb.WriteString(fmt.Sprintf("    | _, .error %s => %s\n", strings.Join(r["error"].names, " "), r["error"].body))
+		sb.WriteString(fmt.Sprintf("    | _, .complete %s => %s\n", strings.Join(r["complete"].names, " "), r["complete"].body))
 	}
 	sb.WriteString(fmt.Sprintf("  )\n  (unsubAll %s)\n", e.lensName()))
 	return sb.String()
